@@ -2100,6 +2100,9 @@ class _TrampolineArgs:
 
         try:
             final = self._args[-1]
+            if final is None:
+                # `nil` is how "no rest arguments" is passed to a variadic recur target
+                return self._args[:-1]
             if isinstance(final, ISeq):
                 inits = self._args[:-1]
                 return tuple(itertools.chain(inits, final))
